@@ -224,7 +224,7 @@ DEEP = [
 
 def cases(tier):
     out = []
-    depth_fin = 10_000 if tier == "quick" else 30_000   # (the collector's cost grows with the live stack: 10^5 frames take minutes; see DESIGN.md)
+    depth_fin = 3_000 if tier == "quick" else 30_000   # (the collector's cost grows with the live stack: 10^5 frames take minutes; see DESIGN.md)
     for p in PATHS:
         out.append({"id": "path|%s|loop" % p[0], "src": prog_loop(p), "step_budget": 300_000, "depth_limit": 1000, "step_vm_budget": 1_000_000, "kind": "loop", "path": p[0]})
         out.append({"id": "path|%s|rec-unbounded" % p[0], "src": prog_rec_unbounded(p), "step_budget": 5_000_000, "depth_limit": 1000, "step_vm_budget": 1_000_000, "kind": "rec-unbounded", "path": p[0]})
@@ -239,7 +239,7 @@ def cases(tier):
             src = "var out; try { var r = %s; out = 'ok:' + (typeof r === 'string' || Array.isArray(r) ? 'len' + r.length : typeof r); } catch (e) { out = 'caught:' + (e && e.name); }\nout" % expr.replace("{N}", z)
             out.append({"id": "size|%s|%s" % (sname, zn), "src": src, "step_budget": 20_000_000, "depth_limit": 100_000, "step_vm_budget": 50_000_000, "kind": "size", "native": sname, "size": zn})
     for dname, setup, expr in DEEP:
-        for n in ([1000, 100_000] if tier == "quick" else [1000, 10_000, 30_000, 100_000]):
+        for n in ([1000, 30_000] if tier == "quick" else [1000, 10_000, 30_000, 100_000]):
             if dname == "deep-closure-chain" and n > 10_000:
                 continue    # collector cost grows faster than linearly with the chain (minutes at 10^5): a cost matter (C14), every step still returns
             src = "%s\nvar out; try { out = 'ok:' + String(%s).length; } catch (e) { out = 'caught:' + (e && e.name); }\nout" % (setup.replace("{N}", str(n)), expr.replace("{N}", str(n)))
@@ -351,7 +351,7 @@ def run(tier, seed):
             chk.fail("%s|%s" % (prof, c["id"]), aspect, "%s [%s build]: %s: %s" % (c["id"], prof, aspect, detail[:160]), {"id": c["id"], "tier": tier, "profile": prof}, cluster=cluster)
     chk.coverage = {"evaluations": total, "cases": len(cs), "profiles": profiles, "paths": len(PATHS) + len(ASYNC_PATHS), "sized_natives": len(SIZED), "sizes": [s[0] for s in SIZES], "deep_structures": len(DEEP),
                     "distinct_nontrivial": sum(len(v) for v in good_paths.values()), "paths_fully_under_host_control": sorted(p for p, v in good_paths.items() if len(v) == 4), "paths_not_reaching_the_callee_on_tsrun": sorted(skipped_uncal), "table": table,
-                    "rule": "every (re-entry path x body) pair of the table: body in {infinite loop, unbounded recursion through the same path, finite recursion of depth %d, depth 50 (calibration)}; host = step counter + call_depth() limit 1000, exactly the CLI's --timeout/--max-depth; a step may execute at most 10^6 VM instructions (hook counter); every (native x size) pair and every (native x deep structure x depth) pair under RLIMIT_AS 2 GiB and an 8 MiB stack, each case attributed to its own worker death/hang" % (10_000 if tier == "quick" else 30_000)}
+                    "rule": "every (re-entry path x body) pair of the table: body in {infinite loop, unbounded recursion through the same path, finite recursion of depth %d, depth 50 (calibration)}; host = step counter + call_depth() limit 1000, exactly the CLI's --timeout/--max-depth; a step may execute at most 10^6 VM instructions (hook counter); every (native x size) pair and every (native x deep structure x depth) pair under RLIMIT_AS 2 GiB and an 8 MiB stack, each case attributed to its own worker death/hang" % (3_000 if tier == "quick" else 30_000)}
     chk.assumptions = ["a path whose callee is not invoked at all on tsrun (hook unsupported) is not judged here", "bounded work = at most 10^6 VM instructions inside one step(); native work that executes no VM instruction is bounded by the hang limit only",
                        "an oversized request may fail with any catchable error or succeed; only death, hang, panic or an Err that escapes try/catch is a violation"]
     return chk.finish(exhaustive=True)
